@@ -10,7 +10,9 @@ EXTENDS QAlg, MC_QAlgDefs
 Xs == <<R(2), R(-3), <<5, 2>>>>
 Ys == <<R(5), R(4), R(-1)>>
 L == Len(Xs)
-ValX(r, x) == IF r.op = "" THEN Val(r.a, x) ELSE MulDiv(Val(r.a, x), Val(r.b, One), r.op).val
+ValX(r, x) == IF r.op = "" THEN Val(r.a, x)
+              ELSE IF r.op = "Raw" THEN [q |-> <<Ent(r.a[1], r.a[2], 1), Ent(r.b[1], r.b[2], 1)>>, v |-> x]       \* the ordered map taken as it is
+              ELSE MulDiv(Val(r.a, x), Val(r.b, One), r.op).val
 ArrOps == {"Add", "Sub", "Mul", "Div", "FloorDiv"}
 Elem(r1, r2, op, i) == IF op \in {"Add", "Sub"} THEN SumSub(ValX(r1, Xs[i]), ValX(r2, Ys[i]), op) ELSE MulDiv(ValX(r1, Xs[i]), ValX(r2, Ys[i]), op)
 Row(r1, r2, op) == Only({ [r1 |-> r1, r2 |-> r2, op |-> op, ok |-> e[1].ok, exc |-> e[1].exc, q |-> e[1].val.q,
